@@ -101,8 +101,80 @@ def cmp_s(a, b):
     return "Less" if a < b else ("Equal" if a == b else "Greater")
 
 
+DIG = "0123456789ABCDEFGHIJKLMNOPQRSTUVWXYZ"
+
+
+def render(n, b):
+    if n == 0:
+        return "0"
+    m, out = abs(n), ""
+    while m:
+        out = DIG[m % b] + out
+        m //= b
+    return ("-" if n < 0 else "") + out
+
+
+def area_eval(tree, count, vals):
+    """tree: nested tuple ('Q'|'E', l, r) | ('H', n) | ('N',). returns (type, pops)"""
+    k = 0
+    while True:
+        if tree[0] == "N":
+            return 0, k
+        if tree[0] == "H":
+            return tree[1], k
+        v = vals[k] if k < len(vals) else None
+        k += 1
+        if tree[0] == "Q":
+            left = v is not None and v < count
+        else:
+            left = v is not None and v == count
+        tree = tree[1] if left else tree[2]
+
+
+def tree_tokens(t):
+    if t[0] == "N":
+        return ["N"]
+    if t[0] == "H":
+        return ["H%d" % t[1]]
+    return [t[0]] + tree_tokens(t[1]) + tree_tokens(t[2])
+
+
 def cases_for(op, seed):
     """yield (line, expected, pretty input)"""
+    if op == "big.roundtrip" or op == "big.to_base":
+        vals = [0, 1, -1, 9, 10, 35, 36, 71, -35, 1295, 2 ** 32 - 1, 2 ** 32, -(2 ** 32), 2 ** 64 + 35, -(2 ** 70) - 11,
+                36 ** 9 - 1, 35 * 36 ** 5]
+        for b in range(2, 37):
+            for n in vals:
+                e = render(n, b)
+                if op == "big.roundtrip":
+                    yield ("big.roundtrip\t%s\t%d" % (enc_big(n), b), e + " true", {"op": "to_string_base then from_string_base", "n": n, "base": b})
+                else:
+                    yield ("big.to_base\t%s\t%d" % (enc_big(n), b), e, {"op": "to_string_base", "n": n, "base": b})
+        return
+    if op == "big.from_base":
+        vals = [0, 1, 9, 10, 35, 36, 71, -35, 1295, 2 ** 32, -(2 ** 70) - 11, 36 ** 9 - 1]
+        for b in range(2, 37):
+            for n in vals:
+                yield ("big.from_base\t%s\t%d" % (render(n, b), b), str(n), {"op": "from_string_base", "text": render(n, b), "base": b})
+        return
+    if op == "area.calc":
+        H2, H3, H5, N = ("H", 2), ("H", 3), ("H", 5), ("N",)
+        trees = [N, H2, ("Q", H2, H3), ("E", H2, H3), ("Q", ("E", H2, H3), H5), ("E", H2, ("Q", H3, N)),
+                 ("Q", ("Q", H2, H3), ("E", H5, ("Q", N, H2)))]
+        vals = [Fraction(0), Fraction(1), Fraction(2), Fraction(3), Fraction(5, 2), Fraction(-1), Fraction(1 << 32), Fraction((1 << 32) + 5),
+                Fraction(7, 3), None]
+        rnd = random.Random(seed)
+        for t in trees:
+            for count in [0, 1, 2, 3, 5]:
+                combos = [[a, b, c] for a in vals for b in vals[:4] + [None] for c in [Fraction(2), None]]
+                rnd.shuffle(combos)
+                for vs in combos[:40]:
+                    ty, k = area_eval(t, count, vs)
+                    line = "area.calc\t%s\t%d\t%s" % (" ".join(tree_tokens(t)), count, " ".join(enc_num(v) for v in vs))
+                    yield (line, "%d %d" % (ty, k), {"op": "area::calc", "tree": " ".join(tree_tokens(t)), "count": count,
+                                                     "popped": [show_num(v) for v in vs]})
+        return
     if op == "big.new":
         for n in [0, 1, -1, 5, -5, 2 ** 31, -2 ** 31, 2 ** 32 - 1, 2 ** 32, -(2 ** 32), 2 ** 32 + 7, 2 ** 62, 2 ** 63 - 1,
                   -(2 ** 63) + 1, -(2 ** 63)]:
@@ -217,6 +289,10 @@ OPS = {
     "op_add_Num": ["num.add"], "op_mul_Num": ["num.mul"], "op_neg_Num": ["num.neg"],
     "op_add_assign_Num": ["num.add"], "op_mul_assign_Num": ["num.mul"],
     "num_partial_cmp": ["num.cmp"],
+    "PartialOrd_for_Num::partial_cmp": ["num.cmp"], "PartialEq_for_Num::eq": ["num.eq"],
+    "calc": ["area.calc"], "Area::new": ["area.calc"],
+    "BigNum::to_string_base": ["big.to_base", "big.roundtrip"], "BigNum::from_string_base": ["big.from_base", "big.roundtrip"],
+    "BigNum::from_string": ["big.from_base"],
 }
 
 PROP_OPS = {
@@ -224,8 +300,9 @@ PROP_OPS = {
             "big.add_assign", "big.sub_assign", "big.mul_assign", "big.div_assign", "big.rem_assign"],
     "C06": ["num.new", "num.show", "num.add", "num.mul", "num.neg", "num.minus", "num.flip", "num.floor", "num.is_pos",
             "num.is_nan", "num.eq"],
-    "C07": ["num.cmp"],
-    "C09": [],
+    "C07": ["num.cmp", "area.calc", "big.eq", "big.cmp"],
+    "C09": ["big.roundtrip", "big.to_base", "big.from_base", "num.roundtrip"],
+    "C01": ["area.calc", "num.cmp"],
 }
 
 
